@@ -35,8 +35,9 @@ type world struct {
 	cs   []sio.ClientSocket
 	mu   sync.Mutex
 	ss   []sio.ServerSocket
-	seed int64
-	hops int64 // operations issued from handlers
+	seed  int64
+	hops  int64 // operations issued from handlers
+	ready int32 // set once the world is built: handlers issue operations only from then on
 }
 
 type watchdog struct {
@@ -217,6 +218,9 @@ func newWorld(seed int64, nclients int, wd *watchdog) (*world, error) {
 	var hseq int64
 	fromHandler := func(kind string) {
 		// handlers issue operations too (bounded: an operation issued here may trigger handlers again)
+		if atomic.LoadInt32(&w.ready) == 0 {
+			return
+		}
 		n := atomic.AddInt64(&hseq, 1)
 		if n > 400 {
 			return
@@ -287,6 +291,7 @@ func newWorld(seed int64, nclients int, wd *watchdog) (*world, error) {
 		w.close()
 		return nil, fmt.Errorf("clients did not connect")
 	}
+	atomic.StoreInt32(&w.ready, 1)
 	return w, nil
 }
 
@@ -311,7 +316,7 @@ func TestC16(t *testing.T) {
 	res.Rule = "one case = one randomly generated concurrent program: 2..16 goroutines x 20..40 operations drawn from 34 kinds over the server, namespace, socket, manager and adapter APIs (handlers issue operations too), 2-4 real clients over the three transport configurations, GOMAXPROCS in {1,2,4,16}, yields injected at the hook points; distinct by seed; all non-trivial"
 	vtrace.Install()
 	defer vtrace.Uninstall()
-	vtrace.SetFilter(func(name string) bool { return name == "reset" || name == "quiesce" })
+	vtrace.SetFilter(func(name string) bool { return name == "reset" || name == "quiesce" || name == "settle" })
 	vtrace.InstallLocks()
 	defer vtrace.UninstallLocks()
 	tw, err := vtrace.NewWriter(filepath.Join(out, "locks.ndjson"))
@@ -377,7 +382,10 @@ func TestC16(t *testing.T) {
 		}
 		w.close()
 		time.Sleep(100 * time.Millisecond)
-		vtrace.Emit("quiesce", "scenario", sc, "handlerOps", atomic.LoadInt64(&w.hops))
+		// what is held or awaited now and still is 300 ms later was left behind (a goroutine merely caught inside a critical section moves on)
+		vtrace.Emit("settle", "scenario", sc)
+		time.Sleep(300 * time.Millisecond)
+		vtrace.Emit("quiesce", "scenario", sc, "handlerOps", atomic.LoadInt64(&w.hops), "alive", vtrace.AliveGs())
 		sio.VerifSetGate(nil)
 		tw.Write(vtrace.Take())
 		res.Case(fmt.Sprint("prog", seed, ng, per, gmp, yieldP), true)
